@@ -562,6 +562,7 @@ func (e *Engine) libMods(callee *ssa.Function, c *ssa.CallCommon, m *ModSet) {
 				lvl = modFresh // a builder declared in this very function
 			}
 			m.add("GB:hasnl", lvl)
+			m.add("GB:len", lvl)
 		}
 	case name == "sort.Strings" || name == "sort.Ints":
 		n, _ := e.elemArr(c.Args[0].Type().Underlying().(*types.Slice).Elem())
